@@ -4,8 +4,10 @@ package main
 // that have no Go body (assembly, runtime linknames, unsafe tricks).
 
 import (
+	"encoding/json"
 	"fmt"
 	"go/types"
+	"reflect"
 	"math"
 	"strings"
 
@@ -392,7 +394,20 @@ func init() {
 	// (reflection); the table is loaded from a native dump instead (see loadPolyDump).
 	intrinsics["encoding/json.Unmarshal"] = func(in *Interp, c *callCtx) Value {
 		if len(c.g.frames) > 0 && strings.HasSuffix(c.g.frames[len(c.g.frames)-1].fn.String(), "osm.init#1") {
-			in.loadPolyDump(c.args[1])
+			// the embedded rule table: concrete JSON text, decoded by the engine's own
+			// encoding/json into the target's Go type (json struct tags from go/types)
+			txt, ok := in.mkStr(in.sliceBytes(c.args[0].(SliceV))).Concrete()
+			if !ok {
+				in.unsupported("json.Unmarshal of symbolic text")
+			}
+			var doc interface{}
+			if err := json.Unmarshal([]byte(txt), &doc); err != nil {
+				return in.mkError("json: " + err.Error())
+			}
+			target := c.args[1].(Iface)
+			pt := target.t.Underlying().(*types.Pointer)
+			in.store(target.v.(Ptr).c, in.jsonToValue(doc, pt.Elem()))
+			in.stubsHit["encoding/json.Unmarshal of the embedded polygon table (decoded natively by the engine)"]++
 			return Iface{}
 		}
 		in.unsupported("encoding/json.Unmarshal (reflection) outside the known init")
@@ -933,4 +948,50 @@ func init() {
 		in.stubsHit["sort.Sort contract: any permutation ordered w.r.t. Less"]++
 		return nil
 	}
+}
+
+// jsonToValue converts a decoded JSON document into a value of Go type t (structs by json tag).
+func (in *Interp) jsonToValue(doc interface{}, t types.Type) Value {
+	switch u := t.Underlying().(type) {
+	case *types.Basic:
+		if isString(u) {
+			s, _ := doc.(string)
+			return Str{s: s}
+		}
+		if w, _, ok := isInt(u); ok {
+			f, _ := doc.(float64)
+			return in.tt.Const(w, uint64(int64(f)))
+		}
+		if isBool(u) {
+			b, _ := doc.(bool)
+			return in.tt.Bool(b)
+		}
+	case *types.Slice:
+		arr, ok := doc.([]interface{})
+		if !ok {
+			return SliceV{}
+		}
+		cell := in.newArray(u.Elem(), len(arr))
+		for i, e := range arr {
+			in.store(in.elem(cell, i), in.jsonToValue(e, u.Elem()))
+		}
+		return SliceV{arr: cell, len: len(arr), cap: len(arr)}
+	case *types.Struct:
+		obj, _ := doc.(map[string]interface{})
+		f := make([]Value, u.NumFields())
+		for i := range f {
+			name := u.Field(i).Name()
+			if tag := reflect.StructTag(u.Tag(i)).Get("json"); tag != "" {
+				name = strings.Split(tag, ",")[0]
+			}
+			if v, ok := obj[name]; ok {
+				f[i] = in.jsonToValue(v, u.Field(i).Type())
+			} else {
+				f[i] = in.zero(u.Field(i).Type())
+			}
+		}
+		return StructV{f}
+	}
+	in.unsupported("json decoding into %s", t)
+	return nil
 }
